@@ -3,6 +3,7 @@ C20 — Key-level diff and keyed lookup respect both files' orders.
 Property theorems only (helper lemmas live in CLModel/Proofs/).
 -/
 import CLModel.Compare.AddRemove
+import CLModel.Proofs.AddRemove
 namespace C20
 open AR
 
@@ -12,36 +13,87 @@ variable {α : Type} [BEq α] [LawfulBEq α]
     left order kept, each right-only key right after the last key that precedes
     it in `right` and is also in `left`. -/
 theorem addRemove_eq_spec (l r : List α) (hl : l.Nodup) (hr : r.Nodup) :
-    addRemove l r = spec l r := by
-  sorry
+    addRemove l r = spec l r :=
+  AR.addRemove_eq_spec l r hl hr
+
+/-- The placement rule stated on the keys alone: the output key sequence is the right-only keys
+    with no preceding left key, then every left key `k` (in left order) followed by the
+    right-only keys (in right order) whose last preceding left member in `right` is `k`. -/
+theorem ar_anchor (l r : List α) (hl : l.Nodup) (hr : r.Nodup) :
+    (addRemove l r).map (·.2) =
+      ((anchors l r none).filter (fun p => p.1 == none)).map (·.2) ++
+        l.flatMap (fun k => k :: ((anchors l r none).filter (fun p => p.1 == some k)).map (·.2)) := by
+  rw [AR.addRemove_eq_spec l r hl hr]
+  exact AR.spec_keys l r
 
 /-- every key of either side exactly once -/
 theorem ar_keys_perm (l r : List α) (hl : l.Nodup) (hr : r.Nodup) :
-    ((addRemove l r).map (·.2)).Perm (l ++ r.filter (fun x => !l.contains x)) := by
-  sorry
+    ((addRemove l r).map (·.2)).Perm (l ++ r.filter (fun x => !l.contains x)) :=
+  AR.addRemove_keys_perm l r hl hr
 
 theorem ar_keys_nodup (l r : List α) (hl : l.Nodup) (hr : r.Nodup) :
-    ((addRemove l r).map (·.2)).Nodup := by
-  sorry
+    ((addRemove l r).map (·.2)).Nodup :=
+  AR.addRemove_keys_nodup l r hl hr
 
 /-- labels are decided by membership alone -/
 theorem ar_labels (l r : List α) (hl : l.Nodup) (hr : r.Nodup) :
     ∀ p ∈ addRemove l r,
-      p.1 = (if l.contains p.2 then (if r.contains p.2 then Label.equal else Label.delete) else Label.add) := by
-  sorry
+      p.1 = (if l.contains p.2 then (if r.contains p.2 then Label.equal else Label.delete) else Label.add) :=
+  AR.addRemove_labels l r hl hr
 
 /-- the first sequence's order is kept -/
 theorem ar_left_order (l r : List α) (hl : l.Nodup) (hr : r.Nodup) :
     ((addRemove l r).filter (fun p => p.1 != Label.add)).map (·.2) = l := by
-  sorry
+  rw [AR.addRemove_eq_spec l r hl hr]
+  exact AR.spec_left_order l r
 
 /-- keyed lookup returns the last entity with the key -/
 theorem keyed_last {κ : Type} [BEq κ] [LawfulBEq κ] (keys : List κ) (k : κ) :
-    keyedIndex keys k = (if keys.contains k then some (keys.length - 1 - (keys.reverse.idxOf k)) else none) := by
-  sorry
+    keyedIndex keys k = (if keys.contains k then some (keys.length - 1 - (keys.reverse.idxOf k)) else none) :=
+  AR.keyedIndex_eq keys k
 
 theorem keyed_contains {κ : Type} [BEq κ] [LawfulBEq κ] (keys : List κ) (k : κ) :
-    keyedContains keys k = keys.contains k := by
-  sorry
+    keyedContains keys k = keys.contains k :=
+  AR.keyedContains_eq keys k
+
+/-! ### non-vacuity
+
+`List.mergeSort` is defined by well-founded recursion, so plain `decide` cannot evaluate
+`addRemove`; the model is evaluated by `simp`, the closed form and the hypotheses by `decide`. -/
+
+/-- the model itself, evaluated without any of the theorems above -/
+example : addRemove [1, 2, 3] [2, 4, 3, 5]
+    = [(.delete, 1), (.equal, 2), (.add, 4), (.equal, 3), (.add, 5)] := by
+  simp [addRemove, leftMap, rightStep, dset, dget, List.zipIdx, leKey, List.mergeSort,
+    List.MergeSort.Internal.splitInTwo]
+
+/-- the closed form on the same input, by `decide` -/
+example : [1, 2, 3].Nodup ∧ [2, 4, 3, 5].Nodup ∧
+    spec [1, 2, 3] [2, 4, 3, 5] = [(.delete, 1), (.equal, 2), (.add, 4), (.equal, 3), (.add, 5)] := by
+  decide
+
+/-- the theorem applied to an input with reordered common keys and a leading right-only key -/
+example : addRemove [1, 2, 3] [7, 3, 8, 1, 9]
+    = [(.add, 7), (.equal, 1), (.add, 9), (.delete, 2), (.equal, 3), (.add, 8)] := by
+  rw [addRemove_eq_spec _ _ (by decide) (by decide)]
+  decide
+
+/-! negation witnesses: both `Nodup` hypotheses of `addRemove_eq_spec` are needed
+    (a dict keeps one entry per key, the closed form one per occurrence) -/
+
+example : addRemove [1, 1] ([] : List Nat) = [(.delete, 1)] ∧
+    spec [1, 1] ([] : List Nat) = [(.delete, 1), (.delete, 1)] := by
+  constructor
+  · simp [addRemove, leftMap, dset, List.zipIdx]
+  · decide
+
+example : addRemove ([] : List Nat) [4, 4] = [(.add, 4)] ∧
+    spec ([] : List Nat) [4, 4] = [(.add, 4), (.add, 4)] := by
+  constructor
+  · simp [addRemove, leftMap, rightStep, dset, dget, List.zipIdx]
+  · decide
+
+example : keyedIndex [5, 6, 5, 7] 5 = some 2 ∧ keyedIndex [5, 6, 5, 7] 8 = none ∧
+    keyedContains [5, 6, 5, 7] 7 = true ∧ keyedContains [5, 6, 5, 7] 8 = false := by decide
 
 end C20
